@@ -22,6 +22,10 @@ class MapI (M : Type) where
   MaxIndexableValue : M → F64
   /-- `Encode(b *[]byte)`: appends to the caller's buffer (the new buffer is returned) -/
   Encode : M → List (BitVec 8) → List (BitVec 8)
+  /-- `m == nil` for the interface value -/
+  isNil : M → Bool
+  /-- `mapping.Decode(b *[]byte, flag enc.Flag) (IndexMapping, error)`: the new buffer, the mapping, the error -/
+  Decode : List (BitVec 8) → DDS.Gen.Encoding.Flag → List (BitVec 8) × M × GoErr
 
 /-- `store.Store` (the methods the sketch calls; mutating methods return the new store) -/
 class StoreI (S : Type) where
@@ -39,5 +43,7 @@ class StoreI (S : Type) where
   /-- `Encode(b *[]byte, t enc.FlagType)`: may reorganise the store (the paginated store compacts); returns the
       store and the new buffer -/
   Encode : S → List (BitVec 8) → DDS.Gen.Encoding.FlagType → S × List (BitVec 8)
+  /-- `DecodeAndMergeWith(b *[]byte, binEncodingMode enc.SubFlag) error`: the store, the new buffer, the error -/
+  DecodeAndMergeWith : S → List (BitVec 8) → DDS.Gen.Encoding.SubFlag → S × List (BitVec 8) × GoErr
 
 end DDS.GoSem
